@@ -1453,3 +1453,387 @@ Proof.
     repeat (split; [first [congruence | (intro X; rewrite O10; auto)]|]).
     split; [right; congruence|right]. rewrite O3, O15, A12, A7. eexists. reflexivity.
 Qed.
+
+Lemma eps_input_exit_ri : forall dbg now st dr sf af bytes s s',
+  eps_input_exit dbg now st dr sf af bytes s s' -> eps_window_ok s -> eps_ri_ok s ->
+  eps_ri_ok s' /\ last_recv_frame s <= last_recv_frame s'.
+Proof.
+  intros dbg now st dr sf af bytes s s' H Hw Hok.
+  assert (Hhdr : forall s2, eps_header st dr af (eps_touch now s) = Ok s2 ->
+            u_recv_inputs s2 = u_recv_inputs s /\ u_max_prediction s2 = u_max_prediction s).
+  { intros s2 Eh. destruct (eps_header_touch _ _ _ _ _ _ Eh) as (Ho & _). split; apply Ho. }
+  assert (Hsame : forall t, u_recv_inputs t = u_recv_inputs s -> eps_ri_ok t /\ last_recv_frame s <= last_recv_frame t).
+  { intros t E. split; [eapply eps_ri_ok_ext; eauto|]. rewrite (eps_last_recv_frame_ext _ _ E). lia. }
+  destruct H.
+  - apply Hsame. reflexivity.
+  - apply Hsame. apply (eps_touch_fields now s).
+  - apply Hsame. apply Hhdr. assumption.
+  - apply Hsame. fsimpl. apply Hhdr. assumption.
+  - apply Hsame. fsimpl. apply Hhdr. assumption.
+  - destruct (Hhdr _ H) as (E1 & E2).
+    set (s3 := set_last_input_recv now s2) in *.
+    assert (Hok3 : eps_ri_ok s3) by (eapply eps_ri_ok_ext; [|exact Hok]; exact E1).
+    split; [eapply eps_accept_ri_ok; eauto|].
+    assert (Hmin : TS_I32_MIN <= sf + 0) by (unfold TS_I32_MIN; lia).
+    destruct (eps_accept_spec _ _ _ _ _ _ _ H3 Hmin) as (_ & _ & _ & _ & E & _).
+    assert (last_recv_frame s3 = last_recv_frame s) as <- by (apply eps_last_recv_frame_ext; exact E1). exact E.
+  - destruct (Hhdr _ H) as (E1 & E2).
+    set (s3 := set_last_input_recv now s2) in *.
+    assert (Hok3 : eps_ri_ok s3) by (eapply eps_ri_ok_ext; [|exact Hok]; exact E1).
+    assert (Hw3 : eps_window_ok s3) by (unfold eps_window_ok in *; change (u_max_prediction s3) with (u_max_prediction s2); rewrite E2; exact Hw).
+    assert (L3 : last_recv_frame s3 = last_recv_frame s) by (apply eps_last_recv_frame_ext; exact E1).
+    destruct (eps_complete_exit_ri dbg now sf inputs s3 s4 w lo ref Hok3 Hw3 H0 H1 H3 H4 H5) as (A & B & C & _).
+    split; [exact A|]. rewrite B, <- L3. exact C.
+Qed.
+
+(* ---------- the invariant of reachable endpoint states ---------- *)
+Definition eps_inv (s : ep) : Prop :=
+  eps_wf s /\
+  ((PENDING_OUTPUT_SIZE < N.of_nat (length (u_pending_output s)))%N -> u_event_sent s = true) /\
+  (eps_window_ok s -> eps_ri_ok s).
+
+Lemma eps_inv_core : forall s s', eps_core s' = eps_core s -> (u_event_sent s = true -> u_event_sent s' = true) ->
+  eps_inv s -> eps_inv s'.
+Proof.
+  intros s s' Hc He (W & P & R). eps_core_inj Hc. unfold eps_inv, eps_wf, eps_window_ok, eps_ri_ok in *.
+  rewrite C1, C3, C6, C8, C9. auto.
+Qed.
+
+Ltac eps_unstep H :=
+  unfold step in H; cbn [step_gen] in H;
+  change (handle_message_gen current_code) with handle_message in H;
+  change (poll_gen current_code) with poll in H;
+  change (send_input_gen current_code) with send_input in H.
+
+Lemma eps_input_body_dec : forall m, (exists st dr sf af bytes, m_body m = Input st dr sf af bytes) \/
+  (forall st dr sf af bytes, m_body m <> Input st dr sf af bytes).
+Proof. intro m. destruct (m_body m); try (right; intros; discriminate). left. eauto 6. Qed.
+
+Lemma eps_pop_pending_output_fields : forall f s,
+  (u_pending_output (pop_pending_output f s), u_last_acked (pop_pending_output f s)) =
+    pop_pending f (u_pending_output s) (u_last_acked s) /\
+  u_peer_status (pop_pending_output f s) = u_peer_status s /\
+  u_num_players (pop_pending_output f s) = u_num_players s /\
+  u_recv_inputs (pop_pending_output f s) = u_recv_inputs s /\
+  u_max_prediction (pop_pending_output f s) = u_max_prediction s /\
+  u_pending_checksums (pop_pending_output f s) = u_pending_checksums s /\
+  u_desync (pop_pending_output f s) = u_desync s /\ u_handles (pop_pending_output f s) = u_handles s.
+Proof. intros f s. unfold pop_pending_output. destruct (pop_pending _ _ _). fsimpl. repeat split. Qed.
+
+Lemma eps_inv_step : forall dbg o s s' out, eps_inv s -> step dbg o s = Ok (s', out) -> eps_inv s'.
+Proof.
+  intros dbg o s s' out HI H.
+  destruct o as [now nonce|now nonce m|now nonce cs|now inputs cs|now|now fr ck|lf|]; eps_unstep H.
+  - destruct (synchronize now nonce s) as [t| |] eqn:E; inversion H; subst; clear H.
+    apply eps_synchronize_effect in E. destruct E as (A & _ & B & _). eapply eps_inv_core; eauto; congruence.
+  - destruct (handle_message dbg now nonce m s) as [t| |] eqn:E; inversion H; subst; clear H.
+    destruct (eps_input_body_dec m) as [(st & dr & sf & af & bytes & Eb)|Hn].
+    + pose proof (eps_input_exits _ _ _ _ _ _ _ _ _ _ _ Eb E) as X.
+      destruct (eps_input_exit_effect _ _ _ _ _ _ _ _ _ X) as (A1&A2&A3&A4&A5&A6&A7&A8&A9&A10&A11&A12).
+      destruct HI as (W & P & R). split; [|split].
+      * unfold eps_wf in *. congruence.
+      * intro L. apply A2. apply P.
+        destruct A11 as [A11|A11]; [inversion A11; congruence|].
+        destruct (pop_pending af (u_pending_output s) (u_last_acked s)) as [po la] eqn:Ep. inversion A11; subst.
+        apply eps_pop_pending_length in Ep. lia.
+      * intro Hw. assert (Hw0 : eps_window_ok s) by (unfold eps_window_ok in *; congruence).
+        exact (proj1 (eps_input_exit_ri _ _ _ _ _ _ _ _ _ X Hw0 (R Hw0))).
+    + destruct (eps_handle_other_effect _ _ _ _ _ _ Hn E) as (_ & B & _ & D).
+      assert (He : u_event_sent s = true -> u_event_sent s' = true) by congruence.
+      destruct (m_body m) eqn:Eb; try (eapply eps_inv_core; eauto; fail).
+      * destruct D as [D|D]; [eapply eps_inv_core; eauto|].
+        destruct (eps_pop_pending_output_fields ack_frame s) as (F1&F2&F3&F4&F5&_).
+        eps_core_inj D. destruct HI as (W & P & R). unfold eps_inv, eps_wf, eps_window_ok, eps_ri_ok in *.
+        rewrite C1, C3, C6, C8, C9, F2, F3, F4, F5. split; [exact W|]. split; [|exact R].
+        intro L. apply He, P.
+        destruct (pop_pending ack_frame (u_pending_output s) (u_last_acked s)) as [po la] eqn:Ep.
+        inversion F1 as [[Q1 Q2]]. rewrite Q1 in L. apply eps_pop_pending_length in Ep. lia.
+      * destruct D as [D|(t & D1 & D2)]; [eapply eps_inv_core; eauto|].
+        destruct (eps_on_checksum_report_effect _ _ _ _ _ D1) as (pcs & -> & _).
+        eps_core_inj D2. destruct HI as (W & P & R). unfold eps_inv, eps_wf, eps_window_ok, eps_ri_ok in *. fsimpl.
+        rewrite C1, C3, C6, C8, C9. split; [exact W|]. split; [|exact R]. intro L. apply He, P. exact L.
+  - destruct (poll now nonce cs s) as [[evs t]| |] eqn:E; inversion H; subst; clear H.
+    apply eps_poll_effect in E. destruct E as (A & _ & B & _). eapply eps_inv_core; eauto.
+  - destruct (send_input now inputs cs s) as [t| |] eqn:E; inversion H; subst; clear H.
+    apply eps_send_input_effect in E. destruct E as [(_ & ->)|(_ & _ & data & _ & A & B & _)]; [exact HI|].
+    eps_core_inj A. fsimpl. destruct HI as (W & P & R). unfold eps_inv, eps_wf, eps_window_ok, eps_ri_ok in *.
+    rewrite C1, C3, C6, C8, C9. split; [exact W|]. split; [|exact R].
+    intro L. rewrite B. apply orb_true_iff. right. lia.
+  - inversion H; subst; clear H. eapply eps_inv_core; [| |exact HI].
+    + unfold disconnect. destruct (pstate_eqb (u_state s) PShutdown); reflexivity.
+    + unfold disconnect. destruct (pstate_eqb (u_state s) PShutdown); auto.
+  - inversion H; subst; clear H. eapply eps_inv_core; [| |exact HI]; [reflexivity|auto].
+  - unfold update_local_frame_advantage in H.
+    destruct (ts_update_local_frame_advantage _ _ _ _ _ _); inversion H; subst. eapply eps_inv_core; [| |exact HI]; [reflexivity|auto].
+  - inversion H; subst; clear H. eapply eps_inv_core; [| |exact HI]; [reflexivity|auto].
+Qed.
+
+Lemma eps_run_cons : forall dbg o r s s' evs,
+  run dbg s (o :: r) = Ok (s', evs) ->
+  exists s1 e1 e2, step dbg o s = Ok (s1, e1) /\ run dbg s1 r = Ok (s', e2) /\ evs = e1 ++ e2.
+Proof.
+  intros dbg o r s s' evs H. unfold run in *. cbn [run_gen] in H. change (step_gen current_code) with step in H.
+  destruct (step dbg o s) as [[s1 e1]| |]; try discriminate.
+  destruct (run_gen current_code dbg s1 r) as [[s2 e2]| |] eqn:E2; try discriminate.
+  inversion H; subst. eauto 7.
+Qed.
+
+Lemma eps_run_app : forall dbg a b s s' evs,
+  run dbg s (a ++ b) = Ok (s', evs) ->
+  exists s1 e1 e2, run dbg s a = Ok (s1, e1) /\ run dbg s1 b = Ok (s', e2) /\ evs = e1 ++ e2.
+Proof.
+  induction a as [|o a IH]; intros b s s' evs H; cbn [app] in H.
+  - exists s, [], evs. split; [reflexivity|]. auto.
+  - apply eps_run_cons in H. destruct H as (s1 & e1 & e2 & H1 & H2 & ->).
+    apply IH in H2. destruct H2 as (s2 & e3 & e4 & H3 & H4 & ->).
+    exists s2, (e1 ++ e3), e4. split; [|split; [exact H4|apply app_assoc]].
+    unfold run in *. cbn [run_gen]. change (step_gen current_code) with step. rewrite H1, H3. reflexivity.
+Qed.
+
+Lemma eps_inv_run : forall dbg ops s s' evs, eps_inv s -> run dbg s ops = Ok (s', evs) -> eps_inv s'.
+Proof.
+  induction ops as [|o r IH]; intros s s' evs HI H.
+  - inversion H; subst. exact HI.
+  - apply eps_run_cons in H. destruct H as (s1 & e1 & e2 & H1 & H2 & _).
+    eapply IH; [|exact H2]. eapply eps_inv_step; eauto.
+Qed.
+
+Lemma eps_inv_new : forall now magic handles np lp mp timeout notify fps desync,
+  eps_inv (ep_new now magic handles np lp mp timeout notify fps desync).
+Proof.
+  intros. unfold eps_inv, eps_wf, eps_ri_ok. cbn. split; [apply repeat_length|]. split; [intro X; exfalso; revert X; vm_compute; discriminate|].
+  intros _. split; [constructor; [intros []|constructor]|]. split; [discriminate|].
+  constructor; [unfold NULL, TS_I32_MAX; lia|constructor].
+Qed.
+
+(* every reachable endpoint state *)
+Lemma eps_reach_inv : forall now magic handles np lp mp timeout notify fps desync dbg ops s evs,
+  run dbg (ep_new now magic handles np lp mp timeout notify fps desync) ops = Ok (s, evs) -> eps_inv s.
+Proof. intros. eapply eps_inv_run; [apply eps_inv_new|eauto]. Qed.
+
+(* ====================================================================================== *)
+(* C18: buffer sizes                                                                       *)
+(* ====================================================================================== *)
+Lemma eps_appended_mono : forall k k' s s', (k <= k')%nat -> eps_appended k s s' -> eps_appended k' s s'.
+Proof. intros k k' s s' L (q & A & B & C). exists q. split; [exact A|]. split; [lia|exact C]. Qed.
+
+(* send_queue: emptied by drain (send_all_messages); otherwise at most two messages per operation are
+   appended (nothing is ever removed or reordered), all under the endpoint's own magic *)
+Lemma eps_send_queue_step : forall dbg o s s' out, step dbg o s = Ok (s', out) ->
+  match o with ODrain => u_send_queue s' = [] | _ => eps_appended 2 s s' end.
+Proof.
+  intros dbg o s s' out H.
+  destruct o as [now nonce|now nonce m|now nonce cs|now inputs cs|now|now fr ck|lf|]; eps_unstep H.
+  - destruct (synchronize now nonce s) as [t| |] eqn:E; inversion H; subst; clear H.
+    apply eps_synchronize_effect in E. destruct E as (_ & A & _). eapply eps_appended_mono; [|exact A]. lia.
+  - destruct (handle_message dbg now nonce m s) as [t| |] eqn:E; inversion H; subst; clear H.
+    destruct (eps_input_body_dec m) as [(st & dr & sf & af & bytes & Eb)|Hn].
+    + pose proof (eps_input_exits _ _ _ _ _ _ _ _ _ _ _ Eb E) as X.
+      destruct (eps_input_exit_effect _ _ _ _ _ _ _ _ _ X) as (_&_&_&_&_&_&_&_&_&_&_&[A|(f & A)]).
+      * apply eps_appended_same. exact A.
+      * exists [mkMsg (u_magic s) (InputAck f)]. split; [exact A|]. split; [cbn; lia|].
+        constructor; [reflexivity|constructor].
+    + destruct (eps_handle_other_effect _ _ _ _ _ _ Hn E) as (A & _). eapply eps_appended_mono; [|exact A]. lia.
+  - destruct (poll now nonce cs s) as [[evs t]| |] eqn:E; inversion H; subst; clear H.
+    apply eps_poll_effect in E. tauto.
+  - destruct (send_input now inputs cs s) as [t| |] eqn:E; inversion H; subst; clear H.
+    apply eps_send_input_effect in E. destruct E as [(_ & ->)|(_ & _ & data & _ & _ & _ & _ & f & _ & A)].
+    + apply eps_appended_refl.
+    + eexists [_]. split; [exact A|]. split; [cbn; lia|]. constructor; [reflexivity|constructor].
+  - inversion H; subst; clear H. apply eps_appended_same.
+    unfold disconnect. destruct (pstate_eqb (u_state s) PShutdown); reflexivity.
+  - inversion H; subst; clear H. unfold eps_appended. fsimpl. eexists [_]. split; [reflexivity|].
+    split; [cbn; lia|]. constructor; [reflexivity|constructor].
+  - unfold update_local_frame_advantage in H.
+    destruct (ts_update_local_frame_advantage _ _ _ _ _ _); inversion H; subst. apply eps_appended_same. reflexivity.
+  - inversion H; subst; clear H. reflexivity.
+Qed.
+
+(* ---------- pending_output ---------- *)
+Definition eps_is_send (o : op) : bool := match o with OSendInput _ _ _ => true | _ => false end.
+Definition eps_count_sends (ops : list op) : nat := length (filter eps_is_send ops).
+
+(* only send_input lets pending_output grow, by one entry, and only at a Running endpoint; the state
+   Disconnected / Shutdown is never left *)
+Lemma eps_pending_output_step : forall dbg o s s' out, step dbg o s = Ok (s', out) ->
+  (length (u_pending_output s') <= length (u_pending_output s) + (if eps_is_send o then 1 else 0))%nat /\
+  (eps_dead s -> eps_dead s' /\ (length (u_pending_output s') <= length (u_pending_output s))%nat).
+Proof.
+  intros dbg o s s' out H.
+  assert (Hcore : forall t, eps_core t = eps_core s -> u_pending_output t = u_pending_output s)
+    by (intros t X; eps_core_inj X; assumption).
+  destruct o as [now nonce|now nonce m|now nonce cs|now inputs cs|now|now fr ck|lf|]; eps_unstep H; cbn [eps_is_send].
+  - destruct (synchronize now nonce s) as [t| |] eqn:E; inversion H; subst; clear H.
+    apply eps_synchronize_effect in E. destruct E as (A & _ & _ & B & _). rewrite (Hcore _ A).
+    split; [lia|]. intros [D|D]; congruence.
+  - destruct (handle_message dbg now nonce m s) as [t| |] eqn:E; inversion H; subst; clear H.
+    assert (Hpop : forall f po la, (po, la) = pop_pending f (u_pending_output s) (u_last_acked s) ->
+                     (length po <= length (u_pending_output s))%nat).
+    { intros f po la X. symmetry in X. apply eps_pop_pending_length in X. exact X. }
+    destruct (eps_input_body_dec m) as [(st & dr & sf & af & bytes & Eb)|Hn].
+    + pose proof (eps_input_exits _ _ _ _ _ _ _ _ _ _ _ Eb E) as X.
+      destruct (eps_input_exit_effect _ _ _ _ _ _ _ _ _ X) as (A1&_&_&_&_&_&_&_&_&_&A11&_).
+      assert (L : (length (u_pending_output s') <= length (u_pending_output s))%nat).
+      { destruct A11 as [A11|A11]; [inversion A11; lia|]. eapply Hpop. exact A11. }
+      split; [lia|]. intros D. split; [unfold eps_dead in *; rewrite A1; exact D|exact L].
+    + destruct (eps_handle_other_effect _ _ _ _ _ _ Hn E) as (_ & _ & C & D).
+      assert (L : (length (u_pending_output s') <= length (u_pending_output s))%nat).
+      { destruct (m_body m) eqn:Eb; try (rewrite (Hcore _ D); lia).
+        - destruct D as [D|D]; [rewrite (Hcore _ D); lia|].
+          destruct (eps_pop_pending_output_fields ack_frame s) as (F1 & _). eps_core_inj D. rewrite C6.
+          eapply Hpop. symmetry. exact F1.
+        - destruct D as [D|(t & D1 & D2)]; [rewrite (Hcore _ D); lia|].
+          destruct (eps_on_checksum_report_effect _ _ _ _ _ D1) as (pcs & -> & _). fsimpl. rewrite (Hcore _ D2). lia. }
+      split; [lia|]. intros Dd. split; [|exact L]. unfold eps_dead in *.
+      destruct C as [C|(C & _)]; [rewrite C; exact Dd|destruct Dd; congruence].
+  - destruct (poll now nonce cs s) as [[evs t]| |] eqn:E; inversion H; subst; clear H.
+    apply eps_poll_effect in E. destruct E as (A & _ & _ & B & _). rewrite (Hcore _ A). split; [lia|].
+    intro D. split; [|lia]. unfold eps_dead in *. destruct B as [B|(_ & B)]; [rewrite B; exact D|auto].
+  - destruct (send_input now inputs cs s) as [t| |] eqn:E; inversion H; subst; clear H.
+    apply eps_send_input_effect in E. destruct E as [(_ & ->)|(R & _ & data & _ & A & _)].
+    + split; [lia|]. intro D. split; [exact D|lia].
+    + eps_core_inj A. fsimpl. rewrite C6, app_length. cbn [length]. split; [lia|]. intros [D|D]; congruence.
+  - inversion H; subst; clear H. unfold disconnect, eps_dead.
+    destruct (pstate_eqb (u_state s) PShutdown) eqn:Es.
+    + apply pstate_eqb_eq in Es. split; [lia|]. intros _. split; [auto|lia].
+    + fsimpl. split; [lia|]. intros _. split; [auto|lia].
+  - inversion H; subst; clear H. fsimpl. split; [lia|]. intro D. split; [exact D|lia].
+  - unfold update_local_frame_advantage in H.
+    destruct (ts_update_local_frame_advantage _ _ _ _ _ _); inversion H; subst. fsimpl. split; [lia|].
+    intro D. split; [exact D|lia].
+  - inversion H; subst; clear H. unfold drain. fsimpl. split; [lia|]. intro D. split; [exact D|lia].
+Qed.
+
+Lemma eps_pending_output_run : forall dbg ops s s' evs, run dbg s ops = Ok (s', evs) ->
+  (length (u_pending_output s') <= length (u_pending_output s) + eps_count_sends ops)%nat /\
+  (eps_dead s -> eps_dead s' /\ (length (u_pending_output s') <= length (u_pending_output s))%nat).
+Proof.
+  induction ops as [|o r IH]; intros s s' evs H.
+  - inversion H; subst. cbn. split; [lia|]. intro D. split; [exact D|lia].
+  - apply eps_run_cons in H. destruct H as (s1 & e1 & e2 & H1 & H2 & _).
+    destruct (eps_pending_output_step _ _ _ _ _ H1) as (A & B). destruct (IH _ _ _ H2) as (C & D).
+    unfold eps_count_sends in *. cbn [filter]. split.
+    + destruct (eps_is_send o); cbn [length]; lia.
+    + intro X. destruct (B X) as (B1 & B2). destruct (D B1) as (D1 & D2). split; [exact D1|lia].
+Qed.
+
+(* the bound: while Disconnected has not been raised there are at most PENDING_OUTPUT_SIZE entries; if the
+   caller answers the event with `disconnect` (as the sessions do), the number of entries never exceeds
+   PENDING_OUTPUT_SIZE + the number of send_input calls made between the last state without the event and
+   the disconnect call *)
+Lemma eps_pending_output_bound : forall dbg s ops1 now ops2 s' evs,
+  eps_inv s -> u_event_sent s = false ->
+  run dbg s (ops1 ++ ODisconnect now :: ops2) = Ok (s', evs) ->
+  (length (u_pending_output s') <= N.to_nat PENDING_OUTPUT_SIZE + eps_count_sends ops1)%nat.
+Proof.
+  intros dbg s ops1 now ops2 s' evs (_ & P & _) He H.
+  apply eps_run_app in H. destruct H as (s1 & e1 & e2 & H1 & H2 & _).
+  apply eps_run_cons in H2. destruct H2 as (s2 & e3 & e4 & H3 & H4 & _).
+  destruct (eps_pending_output_run _ _ _ _ _ H1) as (A & _).
+  destruct (eps_pending_output_step _ _ _ _ _ H3) as (B & _). cbn [eps_is_send] in B.
+  assert (D2 : eps_dead s2).
+  { eps_unstep H3. inversion H3; subst. unfold disconnect, eps_dead.
+    destruct (pstate_eqb (u_state s1) PShutdown) eqn:Es; [apply pstate_eqb_eq in Es; auto|fsimpl; auto]. }
+  destruct (eps_pending_output_run _ _ _ _ _ H4) as (_ & C). destruct (C D2) as (_ & C2).
+  assert (L : (length (u_pending_output s) <= N.to_nat PENDING_OUTPUT_SIZE)%nat).
+  { destruct (N.ltb PENDING_OUTPUT_SIZE (N.of_nat (length (u_pending_output s)))) eqn:X.
+    - apply N.ltb_lt in X. rewrite (P X) in He. discriminate.
+    - apply N.ltb_ge in X. lia. }
+  lia.
+Qed.
+
+(* ---------- recv_inputs ---------- *)
+(* an operation none of whose decoded frames has the wrong size (every genuine packet) *)
+Definition eps_shaped (dbg : bool) (nh : nat) (o : op) : Prop :=
+  match o with
+  | OMessage _ _ m =>
+    match m_body m with
+    | Input _ _ _ _ bytes =>
+      forall ref inputs, Codec.decode dbg ref bytes = Ok inputs ->
+                         Forall (fun i => to_player_inputs nh i <> None) inputs
+    | _ => True
+    end
+  | _ => True
+  end.
+
+Definition eps_ri_bound (s : ep) : Z := Z.max (2 * u_max_prediction s) (Z.of_N MAX_DECODED_INPUTS) + 1.
+
+(* per operation: recv_inputs changes only in handle_message(Input) and grows by at most
+   MAX_DECODED_INPUTS entries; with well-sized frames it stays within the bound *)
+Lemma eps_recv_inputs_step : forall dbg o s s' out, step dbg o s = Ok (s', out) ->
+  (length (u_recv_inputs s') <= length (u_recv_inputs s) + N.to_nat MAX_DECODED_INPUTS)%nat /\
+  u_handles s' = u_handles s /\ u_max_prediction s' = u_max_prediction s /\
+  (eps_inv s -> eps_window_ok s -> eps_shaped dbg (length (u_handles s)) o ->
+   Z.of_nat (length (u_recv_inputs s)) <= eps_ri_bound s -> Z.of_nat (length (u_recv_inputs s')) <= eps_ri_bound s).
+Proof.
+  intros dbg o s s' out H.
+  assert (Hcore : forall t, eps_core t = eps_core s ->
+            u_recv_inputs t = u_recv_inputs s /\ u_handles t = u_handles s /\ u_max_prediction t = u_max_prediction s)
+    by (intros t X; eps_core_inj X; auto).
+  assert (Hsame : forall t, u_recv_inputs t = u_recv_inputs s /\ u_handles t = u_handles s /\
+                            u_max_prediction t = u_max_prediction s ->
+     (length (u_recv_inputs t) <= length (u_recv_inputs s) + N.to_nat MAX_DECODED_INPUTS)%nat /\
+     u_handles t = u_handles s /\ u_max_prediction t = u_max_prediction s /\
+     (eps_inv s -> eps_window_ok s -> eps_shaped dbg (length (u_handles s)) o ->
+      Z.of_nat (length (u_recv_inputs s)) <= eps_ri_bound s -> Z.of_nat (length (u_recv_inputs t)) <= eps_ri_bound s)).
+  { intros t (A & B & C). rewrite A. split; [lia|]. split; [exact B|]. split; [exact C|]. auto. }
+  destruct o as [now nonce|now nonce m|now nonce cs|now inputs cs|now|now fr ck|lf|]; eps_unstep H.
+  - destruct (synchronize now nonce s) as [t| |] eqn:E; inversion H; subst; clear H.
+    apply eps_synchronize_effect in E. apply Hsame, Hcore. tauto.
+  - destruct (handle_message dbg now nonce m s) as [t| |] eqn:E; inversion H; subst; clear H.
+    destruct (eps_input_body_dec m) as [(st & dr & sf & af & bytes & Eb)|Hn].
+    2:{ destruct (eps_handle_other_effect _ _ _ _ _ _ Hn E) as (_ & _ & _ & D).
+        destruct (m_body m) eqn:Eb; try (apply Hsame, Hcore; exact D).
+        - destruct D as [D|D]; [apply Hsame, Hcore; exact D|].
+          destruct (eps_pop_pending_output_fields ack_frame s) as (_&_&_&F4&F5&_&_&F8). eps_core_inj D.
+          apply Hsame. repeat split; congruence.
+        - destruct D as [D|(t & D1 & D2)]; [apply Hsame, Hcore; exact D|].
+          destruct (eps_on_checksum_report_effect _ _ _ _ _ D1) as (pcs & -> & _). fsimpl. apply Hsame, Hcore. exact D2. }
+    pose proof (eps_input_exits _ _ _ _ _ _ _ _ _ _ _ Eb E) as X.
+    destruct (eps_input_exit_effect _ _ _ _ _ _ _ _ _ X) as (_&_&_&A4&A5&_).
+    assert (Hhdr : forall s2, eps_header st dr af (eps_touch now s) = Ok s2 -> u_recv_inputs s2 = u_recv_inputs s).
+    { intros s2 Eh. destruct (eps_header_touch _ _ _ _ _ _ Eh) as (Ho & _). apply Ho. }
+    cbn [eps_shaped]. rewrite Eb.
+    destruct X as [ | |s2 Eh|s2 Eh|s2 ref Eh|s2 ref ins s4 Eh Hs El Ed Ea|s2 ref ins s4 w lo Eh Hs El Ed Ea Ew Elo].
+    + apply Hsame. auto.
+    + apply Hsame. split; [apply (eps_touch_fields now s)|auto].
+    + apply Hsame. split; [apply Hhdr; assumption|auto].
+    + apply Hsame. split; [fsimpl; apply Hhdr; assumption|auto].
+    + apply Hsame. split; [fsimpl; apply Hhdr; assumption|auto].
+    + (* wrong-size exit: grows, excluded for well-sized traffic *)
+      assert (Hmin : TS_I32_MIN <= sf + 0) by (unfold TS_I32_MIN; lia).
+      destruct (eps_accept_spec _ _ _ _ _ _ _ Ea Hmin) as (_ & _ & _ & _ & _ & F & _).
+      destruct (decode_bounded eps_cap_ok _ _ _ _ Ed) as (_ & _ & Hn).
+      change (u_recv_inputs (set_last_input_recv now s2)) with (u_recv_inputs s2) in F. rewrite (Hhdr _ Eh) in F.
+      split; [lia|]. split; [exact A4|]. split; [exact A5|]. intros _ _ Hsh _. exfalso.
+      destruct (eps_accept_false _ _ _ _ _ _ Ea) as (pre & bad & post & fr & E1 & _ & _ & _ & E5).
+      specialize (Hsh _ _ Ed). rewrite Forall_forall in Hsh. rewrite A4 in E5.
+      apply (Hsh bad); [rewrite E1; apply in_app_iff; right; left; reflexivity|exact E5].
+    + assert (Hmin : TS_I32_MIN <= sf + 0) by (unfold TS_I32_MIN; lia).
+      destruct (eps_accept_spec _ _ _ _ _ _ _ Ea Hmin) as (_ & _ & _ & _ & _ & F & _).
+      destruct (decode_bounded eps_cap_ok _ _ _ _ Ed) as (_ & _ & Hn).
+      change (u_recv_inputs (set_last_input_recv now s2)) with (u_recv_inputs s2) in F. rewrite (Hhdr _ Eh) in F.
+      split.
+      { fsimpl. pose proof (eps_filter_length (fun kv : Z * list N => Z.min lo (sf - 1) <=? fst kv) (u_recv_inputs s4)) as FL.
+        unfold aretain_ge. unfold ibytes in *. lia. }
+      split; [exact A4|]. split; [exact A5|]. intros (_ & _ & R) Hw _ Hb.
+      set (s3 := set_last_input_recv now s2) in *.
+      assert (Hok3 : eps_ri_ok s3) by (eapply eps_ri_ok_ext; [|exact (R Hw)]; apply Hhdr; exact Eh).
+      assert (Emp : u_max_prediction s3 = u_max_prediction s).
+      { destruct (eps_header_touch _ _ _ _ _ _ Eh) as (Ho & _). apply Ho. }
+      assert (Hw3 : eps_window_ok s3) by (unfold eps_window_ok in *; rewrite Emp; exact Hw).
+      destruct (eps_complete_exit_ri dbg now sf ins s3 s4 w lo ref Hok3 Hw3 Hs El Ea Ew Elo) as (_ & _ & _ & B1 & B2 & _).
+      cbv zeta in B1, B2. rewrite Emp in B1. unfold eps_ri_bound in *.
+      change (u_recv_inputs s3) with (u_recv_inputs s2) in B2. rewrite (Hhdr _ Eh) in B2.
+      destruct B2 as [B2|B2]; unfold ibytes in *; lia.
+  - destruct (poll now nonce cs s) as [[evs t]| |] eqn:E; inversion H; subst; clear H.
+    apply eps_poll_effect in E. apply Hsame, Hcore. tauto.
+  - destruct (send_input now inputs cs s) as [t| |] eqn:E; inversion H; subst; clear H.
+    apply eps_send_input_effect in E. destruct E as [(_ & ->)|(_ & _ & data & _ & A & _)]; [apply Hsame; auto|].
+    eps_core_inj A. fsimpl. apply Hsame. auto.
+  - inversion H; subst; clear H. apply Hsame. unfold disconnect. destruct (pstate_eqb (u_state s) PShutdown); auto.
+  - inversion H; subst; clear H. apply Hsame. auto.
+  - unfold update_local_frame_advantage in H.
+    destruct (ts_update_local_frame_advantage _ _ _ _ _ _); inversion H; subst. apply Hsame. auto.
+  - inversion H; subst; clear H. apply Hsame. auto.
+Qed.
